@@ -139,6 +139,8 @@ def adopt_new_units(world, model, obs, prop):
                 u.toks = []
             else:
                 u.toks = rest + fwd
+    if getattr(model, "reordered_ever", False):
+        obs.reordered = True
     # The order of the non-empty units of a section must equal the real
     # address order (bytes must not be reordered).  A difference is noted
     # and judged last, so that it cannot mask anything else; the model
@@ -163,6 +165,7 @@ def adopt_new_units(world, model, obs, prop):
         all_old = [u.id for u in units if not u.new and u.id in rank]
         if all_old != [o.unit for o in lst if o.unit in set(all_old)]:
             obs.reordered = True
+            model.reordered_ever = True
         units.sort(key=lambda u: rank.get(u.id, 1 << 30))
     return deferred
 
